@@ -84,6 +84,13 @@ CHECKS.update({
   note="Trusted: z3, numpy object loops, the reference interpreter (values keyed by node identity). Exact reals; sqrt and non-integer power uninterpreted. The coordinate label of a kept dimension is not documented and not checked. Outside: rounding, size-1 reduced dimensions, depth > 2, other backends."),
 })
 
+CHECKS.update({
+ "C14": dict(category="other", design_ref="DESIGN.md §4 C14",
+  technique="solver-driven exhaustive enumeration (CrossHair/z3 decision tree) of pairs of fluent node descriptions and of operation/shape configurations through the real fluent code",
+  text="fluent-names: for every pair of callables from a palette (two functions, two lambdas, two closures sharing __name__, two partials) a node description (0-1 static args from a palette of look-alike values 1/'1'/1.0/True/'a', optional kwarg, 0-2 inputs in either order) and a second one that equals the first or differs in exactly one aspect are built with the real fluent.Node: equal names imply the same callable, equal typed static arguments and the same inputs; building twice gives the same name; Cascade.from_actions of both has one uniquely named node per distinct computation and graph2job one task per node. fluent-operands: every unary operation (reductions with/without batching and keep_dim, stack/concatenate incl. size-1 dimensions, flatten, map, expand, select/isel, scalar arithmetic, transform) and every binary operation between actions with equal or shifted coordinates leaves dims, shape, coords, node identities and attrs of the receiving action and of the operand unchanged.",
+  note="Trusted: z3/CrossHair, SHA-256 collision freedom, xarray. The operands half is solver-picked configuration with concrete execution (xarray cannot run under the tracer) - the weakest use of the technique here. Known findings (recorded, not repaired): distinct lambdas / distinct callables with equal __name__ collide."),
+})
+
 NA_REASON = "check not built yet in this round (planned, see DESIGN.md §4); not claimed until its harness exists and passes on the unchanged tree"
 
 def main():
